@@ -235,6 +235,62 @@ theorem C18_503_then_close (lit : Bytes → Option Bool) (s : PS) (h : PSInv s) 
   simp only [PS.step, hr, onErrorWritten, stale_false _ _ hna, Bool.false_eq_true, if_false]
   exact closeConnection_sessions _ _
 
+/-- C18_503_on_failure, in one statement: whichever way the origin turns out to be unreachable —
+    the lookup fails or yields no address, or the connect fails — the next thing handed to the client
+    connection is the 503 response (`C18_503_bytes`), nothing else is relayed, and the completion of
+    that write closes the client connection and re-arms the accept (unless stopped). -/
+theorem C18_503_on_failure (lit : Bytes → Option Bool) (s : PS) (h : PSInv s) :
+    (∀ ec ips, s.ok (.lookup ec ips) → (ec ≠ .ok ∨ ips = []) →
+        (s.step lit (.lookup ec ips)).errResp = s.errResp ++ [resp503Lookup] ∧
+        (s.step lit (.lookup ec ips)).toClient = s.toClient ∧
+        (s.step lit (.lookup ec ips)).clientWrite = some (.closeConn, s.p.session)) ∧
+    (∀ ec, s.ok (.connected ec) → ec ≠ .ok →
+        (s.step lit (.connected ec)).errResp = s.errResp ++ [resp503Connect] ∧
+        (s.step lit (.connected ec)).toClient = s.toClient ∧
+        (s.step lit (.connected ec)).clientWrite = some (.closeConn, s.p.session)) ∧
+    (∀ ec, s.ok (.errWritten ec) →
+        (s.step lit (.errWritten ec)).sessions = s.sessions + 1 ∧
+        (s.p.close = false → (s.step lit (.errWritten ec)).accepting = true)) := by
+  refine ⟨?_, ?_, ?_⟩
+  · intro ec ips hok hf
+    have := C18_503_on_lookup_failure lit s h ec ips hok hf
+    exact ⟨this.1, this.2.2.1, this.2.1⟩
+  · intro ec hok hf
+    have := C18_503_on_connect_failure lit s h ec hok hf
+    exact ⟨this.1, this.2.2.1, this.2.1⟩
+  · intro ec hok
+    have := C18_503_then_close lit s h ec hok
+    refine ⟨this.1, ?_⟩
+    intro hc
+    rw [this.2.2]; simp [hc]
+
+/-- whom the proxy dials: the FIRST request of a session (no connection open, none being made)
+    starts a lookup of exactly `rewrite`'s host with `rewrite`'s port as service when the host is no
+    address literal, and otherwise opens a socket of the literal's family and connects to
+    (host, port mod 65536); a successful lookup connects to the FIRST address it returned. -/
+theorem C18_dials (lit : Bytes → Option Bool) (p : Px) (req : Request) (rw : Rewritten)
+    (hrw : rewrite req = .ok rw) (hfit : p.nSout + rw.out.length ≤ BUF) (hc : p.connecting = false) (ho : p.srvOpen = false) :
+    (lit rw.host = none →
+      ∃ p', forwardRequest lit p req = .ok (p', [.queued rw.out, .resolve rw.host (portStr rw.port) p.session]) ∧ p'.connecting = true) ∧
+    (∀ v4, lit rw.host = some v4 →
+      ∃ p', forwardRequest lit p req = .ok (p', [.queued rw.out, .openServer v4, .connect rw.host (toU16 rw.port) p.session]) ∧ p'.connecting = true) ∧
+    (∀ a port v4 rest,
+      onDomainLookup p p.session .ok ((a, port, v4) :: rest) = ({ p with srvOpen := true }, [.openServer v4, .connect a port p.session])) := by
+  have hnb : ¬ (p.nSout + rw.out.length > BUF) := by omega
+  refine ⟨?_, ?_, ?_⟩
+  · intro hl
+    unfold forwardRequest
+    simp only [hrw, hnb, if_false]
+    rw [memWrite_ok _ _ _ hfit]
+    simp [hc, ho, hl]
+  · intro v4 hl
+    unfold forwardRequest
+    simp only [hrw, hnb, if_false]
+    rw [memWrite_ok _ _ _ hfit]
+    simp [hc, ho, hl, openForward]
+  · intro a port v4 rest
+    simp [onDomainLookup, stale, openForward]
+
 /-! ### C18_malformed_or_relative_closes -/
 
 /-- If the bytes received so far, together with the chunk `d` that arrives now, contain a complete
